@@ -15,9 +15,10 @@ const (
 	RelSD                  // same bucket, different tags
 	RelDD                  // different buckets
 	RelSplit               // same bucket in a 32-bucket table, different buckets after a grow
+	RelLate                // different buckets, the other keys in the last buckets a resize copies
 )
 
-var relNames = [...]string{"sameBucketSameTag", "sameBucketDiffTag", "diffBuckets", "splitOnGrow"}
+var relNames = [...]string{"sameBucketSameTag", "sameBucketDiffTag", "diffBuckets", "splitOnGrow", "lateBuckets"}
 
 type TableCond int
 
@@ -50,6 +51,11 @@ func layoutFor(rel KeyRel) Layout {
 				return uint64(k)
 			case RelSplit:
 				return uint64(k%2) << 5
+			case RelLate:
+				if k == 0 {
+					return 0
+				}
+				return uint64(32 - k)
 			}
 			return 0
 		},
@@ -230,9 +236,16 @@ func (ms *MapScen) Scenario() *Scenario {
 						in.V = 100*(t+1) + i + 1
 					}
 					call := int64(sched.Invoke())
-					out := execMapOp(m, in, ms.VisitorOp)
+					var nested []HOp
+					out := execMapOp(m, in, ms.VisitorOp, t, &nested)
 					ret := int64(sched.Return())
-					hist[t] = append(hist[t], HOp{Thread: t, In: in, Out: out, Call: call, Ret: ret})
+					if len(nested) > 0 {
+						// a traversal that mutates from its visitor is recorded as the
+						// pieces before/after each nested call (each piece is a traversal of its own)
+						hist[t] = append(hist[t], nested...)
+					} else {
+						hist[t] = append(hist[t], HOp{Thread: t, In: in, Out: out, Call: call, Ret: ret})
+					}
 				}
 			})
 		}
@@ -300,6 +313,16 @@ func (ms *MapScen) Scenario() *Scenario {
 			var lin []HOp
 			for _, o := range all {
 				in := o.In.(MIn)
+				if in.Op == MRangeMut {
+					seen := map[int]bool{}
+					for _, p := range o.Out.(rangeOut).Pairs {
+						if seen[p[0]] {
+							viols = append(viols, OViol{ORange, fmt.Sprintf("Range with a mutating visitor visited key k%d twice: %v", p[0], o.Out)})
+						}
+						seen[p[0]] = true
+					}
+					continue
+				}
 				if in.Op != MRange {
 					if in.Op == MSize {
 						continue // mid-flight Size is unconstrained (C08 speaks of quiescent points)
@@ -361,7 +384,7 @@ func (ms *MapScen) Scenario() *Scenario {
 	return sc
 }
 
-func execMapOp(m MapLike, in MIn, visitorOp *MIn) interface{} {
+func execMapOp(m MapLike, in MIn, visitorOp *MIn, t int, nested *[]HOp) interface{} {
 	switch in.Op {
 	case MLoad:
 		v, ok := m.Load(in.K)
@@ -411,12 +434,26 @@ func execMapOp(m MapLike, in MIn, visitorOp *MIn) interface{} {
 			if k < fillTarget {
 				ro.Pairs = append(ro.Pairs, [2]int{k, v})
 			}
-			if visitorOp != nil && !did {
+			if visitorOp != nil && !did && k < fillTarget {
 				did = true
-				execMapOp(m, *visitorOp, nil)
+				vo := *visitorOp
+				if vo.K < 0 {
+					vo.K = k // "the key being visited"
+				}
+				if vo.V == 0 {
+					vo.V = 900 + k
+				}
+				c := int64(sched.Invoke())
+				out := execMapOp(m, vo, nil, t, nil)
+				r := int64(sched.Return())
+				*nested = append(*nested, HOp{Thread: t, In: vo, Out: out, Call: c, Ret: r})
 			}
 			return true
 		})
+		if nested != nil && len(*nested) > 0 {
+			// the traversal as a whole: only the at-most-once / genuineness part is checked
+			*nested = append(*nested, HOp{Thread: t, In: MIn{Op: MRangeMut}, Out: ro, Call: (*nested)[0].Call, Ret: (*nested)[0].Call})
+		}
 		return ro
 	}
 	panic("execMapOp: bad op")
